@@ -90,6 +90,23 @@ HEADER = ("From Coq Require Import Uint63.\nFrom Coq Require Import ZArith List 
           "Import ListNotations.\nOpen Scope nat_scope.\n")
 
 
+def parse_failing(ctx, name, out):
+    """Parse `= [(i, [f; ...]); ...] : list (nat * list nat)` strictly: every tuple of the printed list must be
+    recognised (numbers are printed as `3%nat` when uint63_scope is open), otherwise the evaluation counts as broken."""
+    flat = re.sub(r'\s+', '', out.replace("%nat", ""))
+    m = re.search(r'=(\[.*\]):list\(nat\*listnat\)', flat)
+    if not m:
+        ctx.problem("correspondence", "could not parse model evaluation output of " + name, out[-1500:])
+        return None
+    body = m.group(1)
+    entries = re.findall(r'\((\d+),\[([\d;]*)\]\)', body)
+    rebuilt = "[" + ";".join("(%s,[%s])" % e for e in entries) + "]"
+    if rebuilt != body:
+        ctx.problem("correspondence", "unrecognised entries in the model evaluation output of " + name, out[-1500:])
+        return None
+    return entries
+
+
 def run_groups(ctx, groups, tag, parallel=4):
     """Evaluate every case of every group inside Coq.  Returns (n_cases, disagreements[list of dicts])."""
     jobs = []
@@ -118,12 +135,10 @@ def run_groups(ctx, groups, tag, parallel=4):
         n += len(part)
         if out is None:
             continue
-        flat = out.replace("\n", " ")
-        m = re.search(r'=\s*(\[.*\])\s*:\s*list \(nat \* list nat\)', flat)
-        if not m:
-            ctx.problem("correspondence", "could not parse model evaluation output of " + name, out[-1500:])
+        entries = parse_failing(ctx, name, out)
+        if entries is None:
             continue
-        for idx, fields in re.findall(r'\((\d+),\s*\[([\d;\s]*)\]\)', m.group(1)):
+        for idx, fields in entries:
             c = part[int(idx)]
             fs = [int(x) for x in re.findall(r'\d+', fields)]
             bad.append({"group": groups[gi]["name"], "case": {k2: c[k2] for k2 in ("kind", "se", "segs", "swapped", "incl", "trunc")},
@@ -198,10 +213,9 @@ def run_packed(ctx, packed, fn, tag, chunk=60, parallel=4):
     for (k, name, _), out in zip(jobs, results):
         if out is None:
             continue
-        m = re.search(r'=\s*(\[.*\])\s*:\s*list \(nat \* list nat\)', out.replace("\n", " "))
-        if not m:
-            ctx.problem("correspondence", "could not parse model evaluation output of " + name, out[-1500:])
+        entries = parse_failing(ctx, name, out)
+        if entries is None:
             continue
-        for idx, fields in re.findall(r'\((\d+),\s*\[([\d;\s]*)\]\)', m.group(1)):
+        for idx, fields in entries:
             bad.append((k + int(idx), [CFIELDS.get(int(x), x) for x in re.findall(r'\d+', fields)]))
     return bad
